@@ -26,6 +26,7 @@ PHASE_FUNCS = {"create_ast", "create_ast_with_comments", "visit_Start", "transpi
 
 _shared_lines = None
 _shared_names = None
+HOT_SPAN = 14
 
 _MUTATORS = {"append", "add", "update", "pop", "clear", "setdefault", "extend", "remove", "discard", "insert",
              "popitem", "appendleft", "move_to_end"}
@@ -76,6 +77,10 @@ def shared_names():
                     elif isinstance(n, ast.Call) and isinstance(n.func, ast.Attribute) and n.func.attr in _MUTATORS \
                             and isinstance(n.func.value, ast.Name) and n.func.value.id in modlevel and n.func.value.id not in params:
                         out.setdefault(n.func.value.id, []).append((p, "mutated-in-place"))
+                    elif isinstance(n, ast.Call) and isinstance(n.func, ast.Attribute) and n.func.attr in _MUTATORS \
+                            and isinstance(n.func.value, ast.Attribute) and isinstance(n.func.value.value, ast.Name) \
+                            and (n.func.value.value.id == "cls" or n.func.value.value.id in classes):
+                        out.setdefault(n.func.value.attr, []).append((p, "class-attribute-assigned"))       # cls.x.pop(...)
                     elif isinstance(n, (ast.Assign, ast.AugAssign, ast.Delete, ast.AnnAssign)):
                         tg = n.targets if isinstance(n, (ast.Assign, ast.Delete)) else [n.target]
                         for t in tg:
@@ -87,6 +92,9 @@ def shared_names():
                                 out.setdefault(t.attr, []).append((p, "class-attribute-assigned"))
                             elif isinstance(t, ast.Attribute) and isinstance(t.value, ast.Attribute) and t.value.attr == "__class__":
                                 out.setdefault(t.attr, []).append((p, "class-attribute-assigned"))
+                            elif isinstance(t, ast.Subscript) and isinstance(t.value, ast.Attribute) and isinstance(t.value.value, ast.Name) \
+                                    and (t.value.value.id == "cls" or t.value.value.id in classes):
+                                out.setdefault(t.value.attr, []).append((p, "class-attribute-assigned"))   # cls.x[k] = v
     _shared_names = out
     return out
 
@@ -181,6 +189,7 @@ class Sched:
             self.prio = {}
         self.locks = []
         self._rv = {"holder": None, "file": None, "ran": 0, "burst": 0}
+        self._inserted = False
         # threads blocked in a *real* wait (a Future, Condition, Queue, join ... that the engine or a change to
         # it introduced): the watchdog takes the baton away from such a thread, it re-enters when it wakes up
         self._wd_lock = threading.Lock()
@@ -190,7 +199,7 @@ class Sched:
     # ------------------------------------------------------------ thread management
     def spawn(self, name, fn):
         t = {"name": name, "state": "ready", "evt": threading.Event(), "fn": fn, "result": None,
-             "blocked_on": None, "steps": 0}
+             "blocked_on": None, "steps": 0, "lines": 0, "hot": 0, "hot_lines": []}
         self.threads[name] = t
         self.order.append(name)
         t["thread"] = threading.Thread(target=self._body, args=(t,), name=name, daemon=True)
@@ -331,6 +340,8 @@ class Sched:
             return self.forced[0][1]
         if self.strategy["kind"] == "pct":
             n = max(self.order, key=lambda x: self.prio[x])
+        elif self.strategy["kind"] == "insert" and self.strategy.get("thread") in self.order:
+            n = self.strategy["thread"]
         else:
             n = self.rng.choice(self.order)
         self.switches.append((0, None, n, "", "first"))
@@ -437,6 +448,16 @@ class Sched:
             self.failure = StepCap("step cap %d exceeded" % self.max_steps)
             self.main_evt.set()
             self._park_forever()
+        if not opcode and not phase:
+            # own line-event index of the thread, and whether this event lies within HOT_SPAN line events after the
+            # thread touched process-global state (where a whole other call inserted here is most likely to matter)
+            me["lines"] += 1
+            if is_shared:
+                me["hot"] = HOT_SPAN
+            if me["hot"] > 0:
+                me["hot"] -= 1
+                if len(me["hot_lines"]) < 5000:
+                    me["hot_lines"].append(me["lines"])
         if is_shared and not opcode:
             self.shared_events += 1
             self.shared_touch.update(("%s:%s:%s;" % (me["name"], os.path.basename(frame.f_code.co_filename), frame.f_lineno)).encode())
@@ -463,6 +484,13 @@ class Sched:
                 self._handoff(me, where=self._where(frame))
         elif k == "phase":
             if phase and self.rng.random() < self.strategy.get("p", 0.5):
+                self._handoff(me, where=self._where(frame))
+        elif k == "insert":
+            # single insertion: thread `thread` runs until its `at_line`-th own line event, then every other thread
+            # runs (one after the other, each to completion unless it blocks), then it resumes; no other pre-emption
+            if not opcode and not phase and not self._inserted and me["name"] == self.strategy.get("thread") \
+                    and me["lines"] >= self.strategy.get("at_line", 1 << 60):
+                self._inserted = True
                 self._handoff(me, where=self._where(frame))
         elif k == "rendezvous":
             # race-directed: a thread that reaches a shared-state line is held there (with probability q)
@@ -587,13 +615,15 @@ def install_sim_locks(sched):
     for modname, mod in list(sys.modules.items()):
         if not modname.startswith("vtlengine") or mod is None:
             continue
-        for attr, val in list(vars(mod).items()):
-            if isinstance(val, _LOCK_TYPES):
-                key = id(val)
-                if key not in sims:
-                    sims[key] = SimLock(sched, attr, reentrant=isinstance(val, _LOCK_TYPES[1]))
-                replaced.append((mod, attr, val))
-                setattr(mod, attr, sims[key])
+        holders = [mod] + [c for c in vars(mod).values() if isinstance(c, type) and getattr(c, "__module__", None) == modname]
+        for holder in holders:          # module-level locks and locks kept as class attributes
+            for attr, val in list(vars(holder).items()):
+                if isinstance(val, _LOCK_TYPES):
+                    key = id(val)
+                    if key not in sims:
+                        sims[key] = SimLock(sched, attr, reentrant=isinstance(val, _LOCK_TYPES[1]))
+                    replaced.append((holder, attr, val))
+                    setattr(holder, attr, sims[key])
 
     def restore():
         for mod, attr, val in replaced:
